@@ -517,6 +517,13 @@ def fam_ws(tier, seed):
             for k in (4, 5, 7, 9):
                 g.real_extra.append(list(toks[0] + " " * k + toks[-1] + " " * (k + 1) + toks[0]))
                 g.real_extra.append(list(" " * (k + 2) + toks[0] + toks[-1]))
+            if name.split("_")[0] not in ("userws",):
+                # long gaps with one character in them that is NOT whitespace although it is a control character (or
+                # looks like a blank), at every alignment of a 4 / 8 / 16-byte window
+                for nearmiss in ("\x0b", "\x00", "\x08", "\x1f", "\x1c", "\x7f"):
+                    for off in (0, 3, 4, 7, 8, 15):
+                        g.real_extra.append(list(toks[0] + " " * off + nearmiss + "\n \t\r" * 3 + toks[-1]))
+                g.real_extra.append(list(toks[0] + " \t\n\r\x0c" * 5 + toks[-1]))
         if well_formed(g):
             out.append(g)
     return out
